@@ -243,7 +243,7 @@ def discCBeforeFix (es : List Ents) (p : Key → Bool) : List Nat → List Key
   | [] => []
   | l :: anc =>
     let found := discCBeforeFix es p anc
-    let added := (es.getD l []).filterMap fun (k, _) => if !hasC es anc k && p k then some k else none
+    let added := (es.getD l []).filterMap fun (k, _) => if !hasC es anc k && p k then some k else none   -- `!l.parent.HasEntry(tn)`
     if added.isEmpty then found else sortKeys (found ++ added)
 
 /-- a miss was discovered as a name, and a name bound below an ancestor's placeholder was answered twice -/
